@@ -146,10 +146,15 @@ def c02(case, trace, settled=False):
     in_scope = True
     agreement_reported = False
     last_client = ("start", "stopped", False)
+    lost_by = None     # how the core came to have no current entry (the kind of row where it lost it)
     for i, t in enumerate(trace):
         k = t["op"][0]
         if k == "load":
             state, hist_len = "stopped", None
+        if t["current"] is not None or k == "load":
+            lost_by = None
+        elif i > 0 and trace[i - 1]["current"] is not None and k != "load":
+            lost_by = "edit" if k in ("add", "remove", "move", "shuffle", "clear") else "notification" if k == "deliver" else "call"
         if t["exc"] and t["exc"] not in DOC_ERRORS.get(k, set()):
             yield ("schedule_no_raise", {"call": k, "exc": t["exc"]}, f"{k} raised {t['exc']}", i)
         started = 0
@@ -200,6 +205,8 @@ def c02(case, trace, settled=False):
             cur = next((x for x in t["tl"] if x[0] == t["current"]), None)
             sounding = t["a_uri"] is not None and t["a_state"] == "playing"
             key = {"call": last_client[0], "from": last_client[1], "had_current": last_client[2]}
+            if lost_by is not None:
+                key["lost_current_by"] = lost_by
             if t["state"] == "playing" and t["current"] is not None and cur is not None:
                 if not (t["a_uri"] == cur[1] and t["a_state"] == "playing"):
                     agreement_reported = True
@@ -227,6 +234,8 @@ def c03(case, trace, settled=False):
             yield ("no_consume_frame", {"call": k}, "playback operation altered the tracklist with consume off", i)
         for hit in _retry_same_track(case, trace, i):
             yield ("skips_only_unplayable", hit[1], hit[2], hit[3])
+        if i == 0:
+            yield from _random_pass(case, trace)
         if settled and k == "next" and i > 0 and not t["exc"] and not t["diverged"]:
             # without repeat next() always moves on: to a following playable entry, or it stops
             # when none is left; it never leaves the old entry playing (unless the shuffle order
@@ -308,6 +317,80 @@ def c03(case, trace, settled=False):
                 else:
                     key = {"call": k, "modes": "".join("1" if x else "0" for x in m), "state": p["state"]}
                 yield (f"predict_{kind}", key, msg, j)
+
+
+def _random_pass(case, trace):
+    """random: every entry is visited exactly once per pass.  `seen` = entries started since the
+    last point where the implementation draws a complete new order (a tracklist_changed event,
+    set_random(True)); None = no claim (not random, an unplayable entry or a refusal in the
+    window, an error).  Each start is attributed to the request that made the entry pending:
+    play(tlid) = explicit, the current entry again = restart, anything else (next, the end of
+    the track, play without tlid from nothing) = the player's own selection.  An entry selected
+    by the player must not have been started in this pass, unless the pass is used up (every
+    entry started), which begins a new pass; and without repeat the player gives up only when
+    the pass is used up."""
+    seen = None
+    req = None
+    for i, t in enumerate(trace):
+        k = t["op"][0]
+        q = trace[i - 1] if i > 0 else None
+        if k == "load":
+            seen, req, q = None, None, None
+        if t["exc"] or t["diverged"] or any(not ok for _, ok in t["attempts"]):
+            seen = None
+        tl_before = [x for x, _ in (q["tl"] if q else [])]
+        for name, kw in t["events"]:
+            if name == "tracklist_changed":
+                seen = set()
+            elif name == "track_playback_started":
+                x = kw["tl_track"].tlid
+                kind = req[1] if req is not None and req[0] == x else "explicit"
+                if seen is None:
+                    continue
+                if kind != "auto":
+                    seen.add(x)
+                elif x in seen:
+                    if set(tl_before) <= seen or set(y for y, _ in t["tl"]) <= seen:
+                        seen = {x}
+                    else:
+                        yield ("random_once_per_pass", {"what": "revisit"},
+                               f"random: entry {x} was selected again although entries "
+                               f"{sorted(set(tl_before) - seen)} of this pass have not been played", i)
+                        seen = None
+                else:
+                    seen.add(x)
+        x = t["pending"]
+        if x is not None and (q is None or x != q["pending"] or k in ("play", "next", "previous", "atf", "load")):
+            if k == "load" or (k == "play" and len(t["op"]) > 1 and t["op"][1] == x):
+                req = (x, "explicit")
+            elif q is not None and x == q["current"]:
+                req = (x, "restart")
+            elif q is not None and x == q["pending"] and req is not None and req[0] == x:
+                pass
+            elif k in ("play", "next", "atf"):
+                req = (x, "auto")
+            else:
+                req = (x, "explicit")
+        if k == "setmode" and t["op"][1] == 1 and not t["exc"]:
+            seen = set() if t["op"][2] else None
+        if not t["modes"][1] or any(case["kinds"][trk] != "playable" for _, trk in t["tl"]):
+            seen = None
+        if seen is None or q is None or t["exc"] or t["diverged"]:
+            continue
+        gave_up = False
+        if k == "next" and (q["current"] is not None or q["pending"] is not None) and t["current"] is None \
+                and t["pending"] is None and t["state"] == "stopped" and t["tl"] == q["tl"] and not t["modes"][2]:
+            gave_up = True
+        if k == "atf" and q["state"] == "playing" and q["pending"] is None and q["current"] is not None \
+                and q["a_uri"] is not None and q["a_state"] == "playing" and not q.get("atf_done") \
+                and t["pending"] is None and t["tl"] == q["tl"] and not t["modes"][2] and not t["modes"][3] \
+                and not any(n == "tracklist_changed" for n, _ in t["events"]):
+            gave_up = True
+        if gave_up and t["tl"] and not set(x for x, _ in t["tl"]) <= seen:
+            yield ("random_once_per_pass", {"what": "skipped"},
+                   f"random: the pass ended although entries {sorted(set(x for x, _ in t['tl']) - seen)} "
+                   f"have not been played in it", i)
+            seen = None
 
 
 def c03_prediction(pred, kind, before, after_settled):
@@ -412,6 +495,7 @@ def c05(case, trace):
             yield hit
         for hit in _consume_drops_unplayable(case, trace, i):
             yield hit
+        yield from _gives_up_early(case, trace, i)
         if t["modes"][0] and failed_in_op and k in ("play", "next", "previous", "atf") and not t["exc"] \
                 and not t["diverged"] and i > 0 and trace[i - 1]["modes"][0]:
             # every retry loop calls _mark_unplayable on the candidate it could not switch to: under
@@ -428,6 +512,51 @@ def c05(case, trace):
                     yield ("consume_drops_refused", {"call": k, "single_entry": True},
                            f"track {trk} was refused during {k} under consume but is still in the tracklist", i)
                     break
+
+
+def _gives_up_early(case, trace, i):
+    """play / next / the end of the track try the FOLLOWING candidates: once every answer of the
+    backend depends on the track only (the per-attempt script is used up), an operation whose
+    candidates were all refused may give up only when no playable candidate is left in the
+    direction it walks - the rest of the list (no consume, no repeat, in list order), the whole
+    list (repeat: two rounds fit into the retry budget), or whatever consume has left (the
+    refused entries leave the list, the walk goes on from the front)."""
+    t = trace[i]
+    k = t["op"][0]
+    if k not in ("play", "next", "atf") or i == 0 or t["exc"] or t["diverged"] or not t["attempts"]:
+        return
+    if any(ok for _, ok in t["attempts"]):
+        return
+    q = trace[i - 1]
+    m = q["modes"]
+    if tuple(m) != tuple(t["modes"]) or (k == "atf" and m[3]):
+        return
+    if sum(len(r["attempts"]) for r in trace[:i]) < len(case["script"]):
+        return
+    playable_left = [x for x, trk in t["tl"] if case["kinds"][trk] == "playable"]
+    if m[0]:
+        if m[2] and not m[1] and len(t["tl"]) == 1:
+            return   # consume+repeat never repeats a lone entry (next_track answers None by design)
+        if playable_left:
+            yield ("tries_following_candidates", {"call": k, "consume": True, "random": bool(m[1])},
+                   f"{k} gave up after refused candidates although entries {playable_left} are playable", i)
+        return
+    if m[1]:
+        return   # random without consume: only the rest of the current pass is tried
+    if m[2]:
+        if playable_left:
+            yield ("tries_following_candidates", {"call": k, "repeat": True},
+                   f"{k} gave up under repeat although entries {playable_left} are playable", i)
+        return
+    last = t["attempts"][-1][0]
+    tracks = [trk for _, trk in t["tl"]]
+    if tracks.count(last) != 1 or t["tl"] != q["tl"]:
+        return
+    j = tracks.index(last)
+    later = [x for x, trk in t["tl"][j + 1:] if case["kinds"][trk] == "playable"]
+    if later:
+        yield ("tries_following_candidates", {"call": k},
+               f"{k} gave up after the refused entry at index {j} although the later entries {later} are playable", i)
 
 
 def _retry_same_track(case, trace, i):
@@ -544,5 +673,27 @@ def c10(case, trace):
                     yield ("restore_position", {**key, "pos": "zero" if s["pos"] == 0 else "nonzero",
                                                 "state": s["state"]},
                            f"saved position {s['pos']} came back as {a['pos']}", j)
+                elif ln is not None and s["queue_len"] == 0 and s["pending"] is None and s["a_uri"] == trk \
+                        and s.get("a_pos") is not None and s["a_pos"] <= ln and a.get("a_pos") != s["a_pos"]:
+                    # the oracle is the audio layer itself: where the stream really was at the save
+                    yield ("restore_position", {**key, "pos": "audio", "state": s["state"]},
+                           f"the stream was at {s['a_pos']} when the session was saved, it came back at {a.get('a_pos')}", j)
         elif not cov["play-last"] and a["state"] != "stopped":
             yield ("coverage_default", {"section": "play-last"}, "playback restored although not selected", j)
+        if cov["tracklist"] and not t["exc"]:
+            # IDs issued after the restore never collide with restored ones
+            restored = {x for x, _ in t["tl"]}
+            for m in range(i + 1, len(trace)):
+                r = trace[m]
+                if r["op"][0] == "load":
+                    break
+                ids = [x for x, _ in r["tl"]]
+                if r["op"][0] == "add" and r["ret"][0] == 4:
+                    new_ids = r["ret"][1::2]
+                    if restored & set(new_ids):
+                        yield ("restore_ids_fresh", key,
+                               f"add() after the restore issued {sorted(restored & set(new_ids))}, which the restored tracklist already uses", m)
+                        break
+                if len(ids) != len(set(ids)):
+                    yield ("restore_ids_fresh", key, f"two entries share a tracklist ID after the restore: {ids}", m)
+                    break
